@@ -76,16 +76,30 @@ def region_table_bytes(entries) -> bytes:
     return raw[:4] + struct.pack("<I", crc) + raw[8:]
 
 
-def locator_bytes(entries, locator_type: uuid.UUID) -> bytes:
+def locator_bytes(entries, locator_type: uuid.UUID, layout: str = "interleaved") -> bytes:
+    """Parent locator item.  `layout` only changes where the UTF-16 strings are stored (the entry table points at them):
+    interleaved k1 v1 k2 v2 ..., keys-first k1 k2 .. v1 v2 .., padded (each string 8-byte aligned), reversed."""
     hdr = struct.pack("<16sHH", locator_type.bytes_le, 0, len(entries))
     tab_len = 20 + 12 * len(entries)
+    enc = [(k.encode("utf-16-le"), v.encode("utf-16-le")) for k, v in entries]
+    pieces = []  # (entry index, 'k'|'v', bytes)
+    if layout == "keys-first":
+        pieces = [(i, "k", kb) for i, (kb, _v) in enumerate(enc)] + [(i, "v", vb) for i, (_k, vb) in enumerate(enc)]
+    else:
+        for i, (kb, vb) in enumerate(enc):
+            pieces += [(i, "k", kb), (i, "v", vb)]
+        if layout == "reversed":
+            pieces.reverse()
     data = b""
+    where = {}
+    for i, kind, bts in pieces:
+        if layout == "padded":
+            data += bytes(-len(data) % 8)
+        where[(i, kind)] = tab_len + len(data)
+        data += bts
     tab = b""
-    for k, v in entries:
-        kb = k.encode("utf-16-le")
-        vb = v.encode("utf-16-le")
-        tab += struct.pack("<IIHH", tab_len + len(data), tab_len + len(data) + len(kb), len(kb), len(vb))
-        data += kb + vb
+    for i, (kb, vb) in enumerate(enc):
+        tab += struct.pack("<IIHH", where[(i, "k")], where[(i, "v")], len(kb), len(vb))
     return hdr + tab + data
 
 
@@ -197,7 +211,7 @@ def build(spec: dict):
     ]
     if spec.get("has_parent"):
         lt = uuid.UUID(spec["locator_type"]) if spec.get("locator_type") else GUID_VHDX_LOCATOR_TYPE
-        items.append((GUID_PARENT_LOCATOR, locator_bytes(spec.get("locator", []), lt), 0b100))
+        items.append((GUID_PARENT_LOCATOR, locator_bytes(spec.get("locator", []), lt, spec.get("locator_layout", "interleaved")), 0b100))
     order = spec.get("meta_order") or list(range(len(items)))
     order = [i for i in order if i < len(items)] + [i for i in range(len(items)) if i not in order]
     gap = spec.get("meta_gap", 0)
